@@ -12,6 +12,14 @@ from chartparse.exceptions import RegexNotMatchError
 
 NL = H.part("VF_NL", 4)
 LINES = ["L0 zero", "L1 one", "L2 two", "L3 three"]
+_RUN = [0]
+
+
+def fresh_lines(n=4):
+    """Line texts unique to this harness invocation: state that a (mutated) implementation keeps per
+    line text can then only act *within* one explored path, which keeps paths independent."""
+    _RUN[0] += 1
+    return ["L%d text of run %d" % (i, _RUN[0]) for i in range(n)]
 
 
 class _Datum:
@@ -20,11 +28,13 @@ class _Datum:
         self.line = line
 
 
-def _mk_kind(k, accept):
+def _mk_kind(k, accept, lines=None):
+    lines = LINES if lines is None else lines
+
     class Kind:
         @classmethod
         def from_chart_line(cls, line):
-            if accept[LINES.index(line)]:
+            if accept[lines.index(line)]:
                 return _Datum(k, line)
             raise RegexNotMatchError("stub-regex-%d" % k, line)
     Kind.__qualname__ = "Kind%d" % k
@@ -37,8 +47,9 @@ def dispatcher(a0: bool, a1: bool, a2: bool, a3: bool, b0: bool, b1: bool, b2: b
     post: _
     """
     acc = [[a0, a1, a2, a3], [b0, b1, b2, b3], [c0, c1, c2, c3]]
-    kinds = [_mk_kind(k, acc[k]) for k in range(3)]
-    lines = LINES[:NL]
+    all_lines = fresh_lines(4)
+    kinds = [_mk_kind(k, acc[k], all_lines) for k in range(3)]
+    lines = all_lines[:NL]
     log = H.CountingLogger()
     with H.patched((T, "logger", log)):
         m = T.parse_data_from_chart_lines(tuple(kinds), iter(lines))
@@ -162,11 +173,11 @@ def dispatcher_history(a0: bool, a1: bool, b0: bool, b1: bool, c0: bool, c1: boo
     """
     post: _
     """
-    lines = LINES[:2]
+    lines = fresh_lines(2)
     acc1 = [[a0, a1, False, False], [b0, b1, False, False]]
     acc2 = [[c0, c1, False, False], [d0, d1, False, False]]
-    kinds1 = [_mk_kind(k, acc1[k]) for k in range(2)]
-    kinds2 = kinds1 if same_kinds else [_mk_kind(k, acc2[k]) for k in range(2)]
+    kinds1 = [_mk_kind(k, acc1[k], lines) for k in range(2)]
+    kinds2 = kinds1 if same_kinds else [_mk_kind(k, acc2[k], lines) for k in range(2)]
     if same_kinds:
         acc2 = acc1
     log = H.CountingLogger()
